@@ -230,3 +230,35 @@ pub fn el(ts: TimeScale, w: i128, leap_window: Option<(i64, i64)>) -> Vec<i128> 
     }
     finish(v, -106 * NPC, 106 * NPC)
 }
+
+// ---------------------------------------------------------------------------------------------
+// interior scans (added in round 8): deterministic low-discrepancy sequences that fill a range evenly with
+// unremarkable values (no power of two or ten, no unit multiple, no round date), so that a threshold, table or
+// fast path *introduced by a change* at a mid-range value, or a condition on low-order digits / residues, is met
+// by a known fraction of the points. Nothing is random: point k of stream j is a fixed function of (k, j).
+const WEYL: [u64; 6] = [0x9E37_79B9_7F4A_7C15, 0xC2B2_AE3D_27D4_EB4F, 0x1656_67B1_9E37_79F9, 0xD6E8_FEB8_6659_FD93, 0xA076_1D64_78BD_642F, 0xE703_7ED1_A0B4_28DB];
+
+/// k-th point of stream `j` in [lo, hi] (inclusive), additive-recurrence (Weyl) sequence on 64-bit fractions
+pub fn scan_point(k: u64, j: usize, lo: i128, hi: i128) -> i128 {
+    let f = (k.wrapping_add(1)).wrapping_mul(WEYL[j % WEYL.len()]) as u128; // fraction of 2^64
+    let span = (hi - lo) as u128 + 1;
+    // span < 2^80 and f < 2^64: split the product to stay inside u128
+    let (sh, sl) = (span >> 40, span & ((1u128 << 40) - 1));
+    let off = ((f * sh) >> 24) + ((f * sl) >> 64);
+    lo + (off.min(span - 1)) as i128
+}
+
+/// k-th point of a *magnitude* scan: the exponent walks through `bits_lo..=bits_hi` and the mantissa through a Weyl
+/// stream, both signs, so that every binade (and hence every decimal digit count) gets the same number of points
+pub fn scan_magnitude(k: u64, j: usize, bits_lo: u32, bits_hi: u32) -> i128 {
+    let nb = (bits_hi - bits_lo + 1) as u64;
+    let b = bits_lo + ((k / 2) % nb) as u32;
+    let lo = if b == 0 { 0 } else { 1i128 << (b - 1) };
+    let hi = (1i128 << b) - 1;
+    let m = scan_point(k / (2 * nb), j, lo, hi.max(lo));
+    if k % 2 == 0 {
+        m
+    } else {
+        -m
+    }
+}
